@@ -13,6 +13,7 @@ import pydsdl
 from pydsdl import BitLengthSet
 
 from .. import engine
+from .. import histories as H
 from ..gen import types as T
 from ..gen import values as V
 from ..ref import codec as C
@@ -123,10 +124,13 @@ def layout_obs(t: pydsdl.CompositeType):
 
 
 def plan(tier):
-    return [{"part": p, "parts": 48} for p in range(48)]
+    return [{"part": p, "parts": 48} for p in range(48)] + H.plan_shards(['delimited-revisions', 'nested-revisions'], 2)
 
 
 def cases(shard, tier):
+    if shard.get("kind") == "call-histories":
+        yield from H.cases_of(shard)
+        return
     for i, (D1, D2) in enumerate(pairs(tier)):
         if i % shard["parts"] == shard["part"]:
             for kind in CONTAINERS:
@@ -137,6 +141,8 @@ def cases(shard, tier):
 
 
 def check_case(case, R: engine.Acc):
+    if case.get("kind") == "call-history":
+        return H.check_history_codec(case["label"], R, 'revision-codec-depends-on-earlier-calls', 'data is read with the revision of the nested type that THIS call read')
     D1, D2, kind = case["D"], case["D2"], case["container"]
     c1, c2 = container(kind, D1), container(kind, D2)
     naming = case.get("naming", "distinct")
@@ -147,6 +153,8 @@ def check_case(case, R: engine.Acc):
         T.NAME_OVERRIDES[T.key(D2)] = ("Rev", (1, 1) if naming == "same-name-next-minor" else (1, 0))
     try:
         t1, t2 = T.build(c1, cache={}), T.build(c2, cache={})
+        T.spoil_accessors(t1)
+        T.spoil_accessors(t2)
     finally:
         T.NAME_OVERRIDES.clear()
     # (a) container layout is identical
